@@ -281,6 +281,9 @@ def judge(fmt, kind, data, reply, res):
     if not res.ok and fmt == "bson" and res.reason == "invalid-utf8" and accepted and _all_text_valid(reply.get("v")):
         # the invalid bytes are in an array element name, which carries no information and is ignored by the decoder
         return (None, None, "illformed-ignored-array-name")
+    if not res.ok and res.reason == "count-limit":
+        # a resource guard of the reference decoder (huge counted container without payload), not a rule of the format: not judged
+        return (None, None, "no-demand-reference-count-limit")
     if not res.ok:
         if accepted:
             return ("conform/%s/ill-formed-accepted/%s" % (fmt, res.reason), {"reason": res.reason, "decoded": json.dumps(reply.get("v"))[:300]}, "illformed")
